@@ -6,6 +6,7 @@ mod bound;
 mod client;
 mod engine;
 mod gen;
+mod segfile;
 mod updater;
 mod util;
 mod vclock;
@@ -46,6 +47,8 @@ fn lines() {
             "upd" => updater::run(&toks[1..]),
             "shm" => engine::run(&toks[1..]),
             "stall" => engine::run_stall(&toks[1..]),
+            "seg" => segfile::run_seg(&toks[1..]),
+            "wrt" => segfile::run_wrt(&toks[1..]),
             t => {
                 eprintln!("unknown tag {}", t);
                 std::process::exit(2);
